@@ -755,10 +755,55 @@ func c19RootLast(t *testing.T, out *vh.Out) {
 	}
 }
 
+// c19LastWrap: "a secret leased on the final use is not returned" — also not inside a wrapping token: the n-th request of
+// an n-use token reads a leased secret WITH a wrap TTL. Op line: lastwrap <n> => <class>|wrapped:<0|1>|secret:<0|1>
+// (secret: what unwrapping the returned wrapping token, if any, yields carries the leased secret)
+func c19LastWrap(t *testing.T, out *vh.Out) {
+	for n := 1; n <= 2; n++ {
+		_, c, root, _ := c19Setup(t)
+		tok := vhCreateToken(t, c, root, map[string]any{"ttl": "1h", "policies": []string{"default", "c19"}, "num_uses": n})
+		out.Reset()
+		for i := 0; i < n-1; i++ {
+			if cl := c19Issue(c, "read", tok, 0); !strings.HasPrefix(cl, "ok") {
+				t.Fatalf("c19 lastwrap set-up use %d: %s", i, cl)
+			}
+		}
+		req := &logical.Request{Operation: logical.ReadOperation, Path: "rec/lease/kw", ClientToken: tok, WrapInfo: &logical.RequestWrapInfo{TTL: 5 * time.Minute}}
+		req.SetTokenEntry(nil)
+		resp, err := c.HandleRequest(vhRootCtx(), req)
+		cl := vhClass(resp, err)
+		if cl != "ok" {
+			cl = "refused"
+		}
+		wrapped, secret := "0", "0"
+		if resp != nil && resp.WrapInfo != nil && resp.WrapInfo.Token != "" {
+			wrapped = "1"
+			ur := &logical.Request{Operation: logical.UpdateOperation, Path: "sys/wrapping/unwrap", ClientToken: root, Data: map[string]any{"token": resp.WrapInfo.Token}}
+			ur.SetTokenEntry(nil)
+			if uresp, uerr := c.HandleRequest(vhRootCtx(), ur); uerr == nil && uresp != nil {
+				body := fmt.Sprintf("%v", uresp.Data)
+				if strings.Contains(body, "canary-") || strings.Contains(body, "lease_id") {
+					secret = "1"
+				}
+			}
+		}
+		if resp != nil && resp.Secret != nil {
+			secret = "1"
+		}
+		res := fmt.Sprintf("%s|wrapped:%s|secret:%s", cl, wrapped, secret)
+		if secret == "1" {
+			res += "!VIOL:the secret leased on the FINAL use of a use-limited token was handed out" + map[string]string{"1": " inside a wrapping token (which outlives the spent token)", "0": ""}[wrapped] + "#leased-secret-returned-on-final-use"
+		}
+		out.Op(res, "lastwrap", vh.I(int64(n)))
+		_ = c.Shutdown()
+	}
+}
+
 func TestVerifC19(t *testing.T) {
 	out := vh.Open()
 	defer out.Close()
 	rng := vh.NewRand(vh.Seed())
+	c19LastWrap(t, out)
 	c19RootLast(t, out)
 	c19SealDenied(t, out)
 	c19SealDeniedNs(t, out)
